@@ -3,9 +3,11 @@ package c15
 import (
 	"bytes"
 	"fmt"
+	"io"
 	"regexp"
 	"strings"
 	"testing"
+	"testing/iotest"
 	"unicode"
 	"unicode/utf8"
 
@@ -185,7 +187,7 @@ func genText(t *rapid.T) []byte {
 }
 
 func TestProp_Position(t *testing.T) {
-	ev.Describe("position", "valid-UTF-8 texts of 1-6 lines built from fragments (ASCII, 2-4 byte runes, combining marks, tabs, control characters, NUL) with line lengths drawn around the elision thresholds (0,1,38-42,57-65,80,81,120,200 runes) and all five break kinds in all adjacencies; offset in [-1, len+1] incl. every mid-rune and mid-CRLF offset; oracle: line/column by direct restatement of the property, context validated relationally (line prefix, window of the physical line containing the offset character, ellipses exactly where cut, middle dot for non-graphic runes, caret exactly under the character); non-trivial = >= 2 lines, or a multi-byte rune before the offset, or a line longer than 60")
+	ev.Describe("position", "(the text is handed to Position through bytes.Reader, strings.Reader, bytes.Buffer, or readers that deliver one byte, 7 bytes or the last bytes together with io.EOF) valid-UTF-8 texts of 1-6 lines built from fragments (ASCII, 2-4 byte runes, combining marks, tabs, control characters, NUL) with line lengths drawn around the elision thresholds (0,1,38-42,57-65,80,81,120,200 runes) and all five break kinds in all adjacencies; offset in [-1, len+1] incl. every mid-rune and mid-CRLF offset; oracle: line/column by direct restatement of the property, context validated relationally (line prefix, window of the physical line containing the offset character, ellipses exactly where cut, middle dot for non-graphic runes, caret exactly under the character); non-trivial = >= 2 lines, or a multi-byte rune before the offset, or a line longer than 60")
 	ev.Check(t, 30000, func(t *rapid.T) {
 		text := genText(t)
 		var offset int
@@ -194,9 +196,23 @@ func TestProp_Position(t *testing.T) {
 		} else {
 			offset = rapid.IntRange(-1, len(text)+1).Draw(t, "offset")
 		}
-		line, col, context := parse.Position(bytes.NewReader(text), offset)
+		var rd io.Reader = bytes.NewReader(text)
+		how := rapid.SampledFrom([]string{"bytes.Reader", "bytes.Reader", "data+EOF", "one byte", "7 bytes", "bytes.Buffer", "strings.Reader"}).Draw(t, "reader")
+		switch how {
+		case "data+EOF":
+			rd = iotest.DataErrReader(bytes.NewReader(text))
+		case "one byte":
+			rd = iotest.OneByteReader(bytes.NewReader(text))
+		case "7 bytes":
+			rd = &chunkReader{b: text, n: 7}
+		case "bytes.Buffer":
+			rd = bytes.NewBuffer(append([]byte(nil), text...))
+		case "strings.Reader":
+			rd = strings.NewReader(string(text))
+		}
+		line, col, context := parse.Position(rd, offset)
 		wl, wc, lr := refPosition(text, offset)
-		desc := fmt.Sprintf("Position(%q, %d)", text, offset)
+		desc := fmt.Sprintf("Position(%q through %s, %d)", text, how, offset)
 		if line != wl || col != wc {
 			t.Fatalf("%s = line %d column %d, want line %d column %d", desc, line, col, wl, wc)
 		}
@@ -211,6 +227,31 @@ func TestProp_Position(t *testing.T) {
 		nt := wl >= 2 || len(lr) > 60 || utf8.RuneCount(text[:o]) != o
 		ev.Case("position", fmt.Sprintf("%q@%d", text, offset), nt, fmt.Sprintf("lines=%d", min(wl, 4)), fmt.Sprintf("long=%v", len(lr) > 60))
 	})
+}
+
+// chunkReader delivers n bytes per call and the last ones together with io.EOF
+type chunkReader struct {
+	b []byte
+	n int
+}
+
+func (r *chunkReader) Read(p []byte) (int, error) {
+	if len(r.b) == 0 {
+		return 0, io.EOF
+	}
+	n := r.n
+	if n > len(p) {
+		n = len(p)
+	}
+	if n > len(r.b) {
+		n = len(r.b)
+	}
+	copy(p, r.b[:n])
+	r.b = r.b[n:]
+	if len(r.b) == 0 {
+		return n, io.EOF
+	}
+	return n, nil
 }
 
 func min(a, b int) int {
@@ -322,7 +363,7 @@ var errFrags = map[string][]string{
 	"json": {"{", "}", "[", "]", ",", ":", `"a"`, `"`, "1", "-", "true", "nul", " ", "\n", "\x00", "é", "x", "@", "\r\n"},
 	"xml":  {"<a", ">", "/>", "</a>", " b='c'", " b=\"c\"", "<!--", "-->", "<![CDATA[", "]]>", "<?xml", "?>", "<!DOCTYPE", "[", "]", "text", "\n", "\x00", "é", " "},
 	"html": {"<a", ">", "/>", "</a>", " b=c", "<svg>", "</svg>", "<math>", "</math>", "<script>", "</script>", "\"", "text", "\n", "\x00", "é", "<!--", "-->", "<xml>", "</xml>"},
-	"js":   {"a", "=", "1", ";", "(", ")", "{", "}", "[", "]", "\n", " ", "@", "#", "\\", "`", "${", "'", "\"", "/", "/*", "*/", "//", "0x", "1n", "1a", "é", " ", "§", "\x01", "let", "function", "=>", "...", "?.", "~=", "class", "\x00", "\r\n", "if",
+	"js": {"a", "=", "1", ";", "(", ")", "{", "}", "[", "]", "\n", " ", "@", "#", "\\", "`", "${", "'", "\"", "/", "/*", "*/", "//", "0x", "1n", "1a", "é", " ", "§", "\x01", "let", "function", "=>", "...", "?.", "~=", "class", "\x00", "\r\n", "if",
 		// the errors that are raised with a message of their own (redeclaration, restricted productions, arrow parameters)
 		"let a;", "let a", "const a=1;", "class a{}", "var a;", "throw\n", "if(x)let[", "(a+b)=>", "(1)=>", "function a(){}", "{", "}", "x=>"},
 }
@@ -341,7 +382,12 @@ func TestProp_ParserErrors(t *testing.T) {
 			input = append(input, rapid.SampledFrom(fr).Draw(t, "frag")...)
 		}
 		got := false
-		in := func() *parse.Input { return parse.NewInputBytes(append([]byte(nil), input...)) }
+		// the input reaches the library in one of the ways a caller can supply it: in place inside a larger buffer that
+		// goes on with other text, as a string, through readers
+		in := func() *parse.Input {
+			i, _, _ := gen.Supply(input, "@#<{\"'`\\")
+			return i
+		}
 		budget := 4*len(input) + 16
 		switch lang {
 		case "css":
@@ -449,7 +495,7 @@ var jsStatements = [][]string{
 var escapeStart = regexp.MustCompile(`^u([0-9a-fA-F]{4}|\{)`)
 
 func TestProp_Insertion(t *testing.T) {
-	ev.Describe("insertion", "JS programs assembled from 1-5 statements of a 20-row token table (separators space/tab/newline/U+2028/comment between tokens) and JSON documents from the grammar generator, (identifiers optionally renamed to u-names such as ucfirst, ud, u8) with one illegal character from {@, U+0001, section sign, backslash+space, #+space, a bare backslash directly in front of the token} (JS) / {@, #, ', x, U+0001, section sign} (JSON) inserted at a token boundary outside literals and comments; oracle: the first error's (Line, Column) == Position(text, insertion offset) computed by the harness reference; non-trivial = insertion not at offset 0 and text with >= 2 lines or a multi-byte rune before the insertion")
+	ev.Describe("insertion", "JS programs assembled from 1-5 statements of a 20-row token table (separators space/tab/newline/U+2028/comment between tokens) and JSON documents from the grammar generator, (identifiers optionally renamed to u-names such as ucfirst, ud, u8) with one illegal character from {@, U+0001, section sign, backslash+space, #+space, a bare backslash directly in front of the token} (JS) / {@, #, ', x, U+0001, section sign, U+FEFF (not at the start), U+00A0, U+2028, U+2029, FF, VT, U+0085, U+3000, U+200B} (JSON) inserted at a token boundary outside literals and comments; oracle: the first error's (Line, Column) == Position(text, insertion offset) computed by the harness reference; non-trivial = insertion not at offset 0 and text with >= 2 lines or a multi-byte rune before the insertion")
 	ev.Check(t, 10000, func(t *rapid.T) {
 		var pieces []string // tokens and separators; insertion happens before pieces[at] where that is a token
 		var tokenIdx []int
@@ -501,7 +547,11 @@ func TestProp_Insertion(t *testing.T) {
 				t.Skip("inside a template literal")
 			}
 		} else {
-			bad = rapid.SampledFrom([]string{"@", "#", "'", "x", "\x01", "§"}).Draw(t, "bad")
+			// also the characters that are white space in other languages (JSON knows space, tab, LF and CR only)
+			bad = rapid.SampledFrom([]string{"@", "#", "'", "x", "\x01", "§", "\ufeff", "\u00a0", "\u2028", "\u2029", "\f", "\v", "\u0085", "\u3000", "\u200b"}).Draw(t, "bad")
+			if bad == "\ufeff" && at == tokenIdx[0] {
+				bad = "\u00a0" // a byte order mark at the very start of a text is not an illegal character
+			}
 		}
 		var sb strings.Builder
 		off := 0
